@@ -103,7 +103,7 @@ func buildArena(sc *pw.Scenario) error {
 	os.MkdirAll("/w/big", 0o755)
 	os.WriteFile("/w/big/.terraformignore", []byte("a\n!b\nc*\n"), 0o644)
 	for i := 0; i < 30; i++ {
-		os.WriteFile(fmt.Sprintf("/w/big/f%02d", i), bytes.Repeat([]byte{byte('a' + i%26), byte('0' + i%10)}, 1500+37*i), 0o644)
+		os.WriteFile(fmt.Sprintf("/w/big/f%02d", i), bytes.Repeat([]byte(fmt.Sprintf("OUT-%d;%c", 20+i, 'a'+i%26)), 400+9*i), 0o644) // outside content: must never show up in a slug of the source tree
 	}
 	// pin the times of the auxiliary trees too: they end up in archive headers and so in the
 	// sizes of simulated writes
